@@ -183,7 +183,7 @@ def _check_mec(U, out, family, case, rec, key, A=None, chain_variants=(True,)):
     if A is None:
         A = gmat.to_np(out)
     if (sum(out) + len(out)) % 5 == 1 or chain_variants != (True,):
-        _gc.scribble_related(U, A, rec, ("dag_to_cpdag", "chain_graph_MEC", "chain_graph", "all_dags"))
+        _gc.scribble_related(U, A, rec, ("dag_to_cpdag", "chain_graph_MEC", "all_dags"))     # not chain_graph: the library-chain-edited family edits those arrays in a realistic way; wiping them here would hide what it looks for
     if chain_variants == (True,) and (sum(out) + len(out)) % 6 == 2:
         chain_variants = (True, False)      # check_chain=False must give the same class for every graph
         rec.count("keyword:check_chain=False")
